@@ -39,9 +39,11 @@ type c05Case struct {
 	HideSecret  bool           `json:"hide_secret,omitempty"`
 	EnableDNS   bool           `json:"enable_dns,omitempty"`
 	SkipSchema  bool           `json:"skip_schema,omitempty"`
-	Probe       bool           `json:"probe,omitempty"`   // contains the hermeticity probe template
-	Expect      string         `json:"expect,omitempty"`  // forbidden-func: the render must fail
-	Pattern     string         `json:"pattern,omitempty"` // files case: glob pattern
+	APIVersions []string       `json:"api_versions,omitempty"` // Install.APIVersions (--api-versions)
+	KubeVersion string         `json:"kube_version,omitempty"` // Install.KubeVersion (--kube-version)
+	Probe       bool           `json:"probe,omitempty"`        // contains the hermeticity probe template
+	Expect      string         `json:"expect,omitempty"`       // forbidden-func: the render must fail
+	Pattern     string         `json:"pattern,omitempty"`      // files case: glob pattern
 }
 
 type c05Hook struct {
@@ -95,6 +97,7 @@ type c05Obs struct {
 	Leaks      []string          `json:"leaks,omitempty"`   // canary tokens found in an output
 	Markers    []string          `json:"markers,omitempty"` // non-empty hermeticity markers
 	HTTPHits   int               `json:"http_hits,omitempty"`
+	Shared     []string          `json:"shared_state,omitempty"` // process-wide state a render modified
 	NTemplates int               `json:"n_templates,omitempty"`
 	NSubcharts int               `json:"n_subcharts,omitempty"`
 	// files case
@@ -225,6 +228,16 @@ func (*c05) Corpus() []any {
 		"templates/via-tpl.yaml": "c05dns-tpl: \"[{{ tpl \"{{ getHostByName \\\"localhost\\\" }}\" . }}]\"\n",
 		"templates/via-inc.yaml": "c05dns-inc: \"[{{ include \"dns.host\" . }}]\"\n",
 		"templates/NOTES.txt":    "c05dns-notes: \"[{{ getHostByName \"localhost\" }}]\"\n"}, nil))
+	// capabilities: templates branching on .Capabilities.APIVersions.Has (many evaluations per render)
+	// and printing the Kubernetes version, rendered with their own --api-versions / --kube-version
+	// while other renders of the process use different ones
+	for _, av := range [][]string{{"c05.example/v1"}, {"c05.example/v2", "other.io/v1beta1"}, nil} {
+		av := av
+		out = append(out, c05CorpusChart("capabilities", map[string]string{
+			"templates/a.yaml": c05CapsTemplate("a"), "templates/b.yaml": c05CapsTemplate("b"), "templates/sub/c.yaml": c05CapsTemplate("c"),
+			"templates/NOTES.txt": "kube {{ .Capabilities.KubeVersion.Version }} v1={{ .Capabilities.APIVersions.Has \"c05.example/v1\" }} v2={{ .Capabilities.APIVersions.Has \"c05.example/v2\" }}\n"},
+			func(c *c05Case) { c.APIVersions = av; c.KubeVersion = "v1.27.3" }))
+	}
 	// every schema $ref form once
 	for _, ref := range c05RefForms {
 		if ref == "file://@CANARY@/s.json" {
@@ -240,6 +253,14 @@ func (*c05) Corpus() []any {
 	out = append(out, c05Case{Kind: "files", Stream: "corpus-files", Pattern: "conf/**", Files: []c05File{
 		{"conf/a/x.txt", "AAA"}, {"conf/b/x.txt", "BBB"}, {"conf/c/x.txt", "CCC"}, {"conf/lines.txt", "l1\nl2\n"}, {"conf/empty.txt", ""}, {"conf/a/x.txt", "AAA2"}}})
 	return out
+}
+
+func c05CapsTemplate(n string) string {
+	return "apiVersion: v1\nkind: ConfigMap\nmetadata:\n  name: caps-" + n + "\ndata:\n" +
+		"  kube: {{ printf \"%s/%s.%s\" .Capabilities.KubeVersion.Version .Capabilities.KubeVersion.Major .Capabilities.KubeVersion.Minor | quote }}\n" +
+		"  v1: {{ .Capabilities.APIVersions.Has \"c05.example/v1\" | quote }}\n  v2: {{ .Capabilities.APIVersions.Has \"c05.example/v2\" | quote }}\n" +
+		"  apps: {{ .Capabilities.APIVersions.Has \"apps/v1\" | quote }}\n  n: {{ len .Capabilities.APIVersions | quote }}\n" +
+		"  many: \"{{ range until 300 }}{{ if $.Capabilities.APIVersions.Has \"c05.example/v1\" }}1{{ else }}0{{ end }}{{ if $.Capabilities.APIVersions.Has \"other.io/v1beta1\" }}b{{ else }}-{{ end }}{{ end }}\"\n"
 }
 
 func (*c05) Exhaustive(tier string) []any {
@@ -335,6 +356,9 @@ func (*c05) Oracle(ci, oi any) []hx.Violation {
 			sig = "C05:dns-resolved-while-disabled"
 		}
 		vs = append(vs, hx.Violation{Sig: sig, What: "hermeticity marker is not empty: " + m})
+	}
+	for _, m := range obs.Shared {
+		vs = append(vs, hx.Violation{Sig: "C05:shared-state-modified", What: "a render modified state shared by all renders of the process: " + m})
 	}
 	if obs.HTTPHits > 0 {
 		vs = append(vs, hx.Violation{Sig: "C05:schema-ref-http-fetched", What: fmt.Sprintf("schema validation fetched an http $ref (%d requests)", obs.HTTPHits)})
